@@ -35,7 +35,10 @@ CHARSETS = [("utf-8", ["latin", "cyr", "jp", "zh", "emoji"]), ("iso-8859-1", ["l
             ("windows-1252", ["latin"]), ("koi8-r", ["cyr"]), ("windows-1251", ["cyr"]), ("shift_jis", ["jp"]),
             ("iso-2022-jp", ["jp"]), ("euc-jp", ["jp"]), ("gb2312", ["zh"]), ("big5", ["zh"]), ("utf-8", ["latin"])]
 NAMES = ["John Doe", "Doe, John", "Smith, Jane (Sales)", "O'Brien", "Dr. A. \"Ace\" Jones", "Bob", "a.b", "Jürgen Müller",
-         "Müller, Jürgen", "Иван Петров", "山田 太郎", "Team <core>", "x@y (not an address)", "semi;colon", ""]
+         "Müller, Jürgen", "Иван Петров", "山田 太郎", "Team <core>", "x@y (not an address)", "semi;colon", "",
+         # quotation marks, apostrophes and other punctuation at the very start / end of the display name
+         "'t Hooft, Gerard", "Dwayne \"The Rock\"", "Chris O'", "\"Quoted\"", "'single'", "(paren) name", "name (paren)", "Back\\slash\\",
+         "dot.", ".dot", "\"", "O'Neil 'Jr'"]
 LOCALS = ["john", "jane.smith", "bob+tag", "o.brien", "info", "no-reply", "a", "first.last"]
 DOMAINS = ["example.com", "mail.example.org", "x.test", "sub.domain.example.net"]
 ZONES = [0, 60, 120, -300, 330, 345, -210, 540, 765, -720]
@@ -141,6 +144,7 @@ def gen_spec(rng, fixture_docx=None, max_att=3):
         "api": pick(rng, ["modern", "modern", "legacy"]), "hdr_enc": pick(rng, ["B", "Q", None]),
         "refold": pick(rng, [None, None, "tab", "tight"]),
         "att_name_style": pick(rng, ["rfc2231", "rfc2047", "raw"]),
+        "date_style": pick(rng, [None, None, None, "nozone", "nozone", "named", "noweekday", "comment", "year2", "noseconds"]),
     }
 
 
@@ -313,9 +317,41 @@ def refold(raw: bytes, how: str) -> bytes:
     return b"\n".join(out) + sep + rest
 
 
+NAMED_ZONES = {0: ["GMT", "UT", "Z"], -300: ["EST"], -240: ["EDT"], -360: ["CST"], -420: ["MST", "PDT"], -480: ["PST"]}
+MONTHS = ["Jan", "Feb", "Mar", "Apr", "May", "Jun", "Jul", "Aug", "Sep", "Oct", "Nov", "Dec"]
+
+
+def style_date(spec, rng_style: str):
+    """Date header text for spec['date'] in one of the RFC 5322 / obsolete forms.  'nozone' turns the spec's date into a
+    NAIVE datetime (zone '-0000' = no zone information, what formatdate()/format_datetime(naive) emit)."""
+    d = spec["date"]
+    if d is None:
+        return None
+    if rng_style == "nozone":
+        spec["date"] = d = d.replace(tzinfo=None)
+        return email.utils.format_datetime(d)                      # ... -0000
+    off = int(d.utcoffset().total_seconds() // 60)
+    num = "%s%02d%02d" % ("+" if off >= 0 else "-", abs(off) // 60, abs(off) % 60)
+    wd = ["Mon", "Tue", "Wed", "Thu", "Fri", "Sat", "Sun"][d.weekday()]
+    if rng_style == "named" and off in NAMED_ZONES:
+        return "%s, %02d %s %04d %02d:%02d:%02d %s" % (wd, d.day, MONTHS[d.month - 1], d.year, d.hour, d.minute, d.second, NAMED_ZONES[off][d.second % len(NAMED_ZONES[off])])
+    if rng_style == "noweekday":
+        return "%d %s %04d %02d:%02d:%02d %s" % (d.day, MONTHS[d.month - 1], d.year, d.hour, d.minute, d.second, num)
+    if rng_style == "comment":
+        return "%s, %02d %s %04d %02d:%02d:%02d %s (%s)" % (wd, d.day, MONTHS[d.month - 1], d.year, d.hour, d.minute, d.second, num, "CEST" if off else "UTC")
+    if rng_style == "year2" and 2000 <= d.year <= 2049:
+        return "%s, %d %s %02d %02d:%02d:%02d %s" % (wd, d.day, MONTHS[d.month - 1], d.year % 100, d.hour, d.minute, d.second, num)
+    if rng_style == "noseconds" and d.second == 0:
+        return "%s, %02d %s %04d %02d:%02d %s" % (wd, d.day, MONTHS[d.month - 1], d.year, d.hour, d.minute, num)
+    return None
+
+
 def build(spec) -> bytes:
     raw = build_legacy(spec) if spec["api"] == "legacy" else build_modern(spec)
     raw = raw.replace(b"\r\n", b"\n")
+    styled = style_date(spec, spec.get("date_style") or "")
+    if styled is not None:
+        raw = re.sub(rb"(?m)^Date: .*$", ("Date: " + styled).encode("ascii"), raw, count=1)
     if spec.get("refold"):
         raw = refold(raw, spec["refold"])
     return raw
